@@ -12,6 +12,7 @@ Constructor domains are compared with the model's decision functions (exception 
 A sample is re-checked inside Coq (vm_compute) with the verified checkers valid_dist / close_dist."""
 import json
 import math
+import warnings
 from fractions import Fraction as F
 
 from harness.common import exc_class
@@ -109,6 +110,7 @@ def run(ctx):
                                        BitPhaseFlipErrorModel, BiasedDepolarizingErrorModel, BiasedYXErrorModel,
                                        CenterSliceErrorModel)
     rng = ctx.rng
+    warnings.filterwarnings('ignore', category=RuntimeWarning)   # nan/inf limits of the F4 probes
     ctx.rule = ('every IID model; p over the grid {0, 1, 2^-1074, 1e-300, 1e-17, ..., 1-2^-53} and random in [0,1]; '
                 'bias log-uniform in [1e-6,1e12] (biased-depolarizing, all axes, both cases) and in [1e-2,1e2] plus 0 '
                 '(Y-X healthy region, p in [0.01,0.99]) with the cancellation region (F3) swept separately; slice '
@@ -342,7 +344,7 @@ def run(ctx):
         yx_case(rng.choice([0.0] + [10 ** rng.uniform(-2, 2)] * 9), rng.uniform(0.01, 0.99), 'yx-random')
     # the cancellation region (known finding F3): listed inputs and a sweep, reported under their own keys
     for bias, p in ((1e-6, 1 - 2.0 ** -53), (1e-9, 0.5), (1e-10, 0.3), (1e12, 0.5), (1e6, 0.5), (1e9, 0.1),
-                    (0.7, 1.0), (1.0, 1.0), (10.0, 1.0), (0.001, 1e-15), (10.0, 1e-12), (0.3, 1 - 2.0 ** -53)):
+                    (0.3, 1.0), (1.038, 1.0), (1.0, 1.0), (10.0, 1.0), (0.001, 1e-15), (10.0, 1e-12), (0.3, 1 - 2.0 ** -53)):
         yx_case(bias, p, 'yx-F3-probe')
     for _ in range(150 * scale):
         bias = 10 ** rng.uniform(-9, 12)
@@ -469,6 +471,9 @@ def run(ctx):
         slice_case(lim, pos, rand_p(), 'slice-random')
         if rng.random() < 0.3:
             slice_attrs(lim, pos)
+    # the known-bad inputs of the two rounding findings, probed individually
+    slice_case((0.032, 0, 0.987), 1.0, 1.0, 'slice-F2-probe')
+    slice_case((0.39196807998287797, 0, 0.00795003897287172), -1.0, 0.5, 'slice-F6-probe')
     # special cases: pos 0 is depolarizing; unit limits at pos 1 are the pure models
     for _ in range(40 * scale):
         lim, p = rand_lim(), rand_p()
@@ -557,12 +562,12 @@ def run(ctx):
                 rep['model_documented'] = ans
                 if got == 'ok' and ans != 'ok':
                     viol('F4-slice-lim-sign-accepted', 'limit with a negative or non-finite entry accepted', rep)
-                elif got != ans:
+                elif (got == 'ok') != (ans == 'ok'):
                     ctx.cmp('ctor-slice', rep, got, ans)
             ask('ctor_slice %s %s' % (lim_tok(lim), pynum_tok(pos)), fn_doc)
+            # exact delimitation of F4: the sign-less decision function reproduces the implementation
             ask('ctor_slice_unsigned %s %s' % (lim_tok(lim), pynum_tok(pos)),
-                lambda ans, got=got, rep=rep: ctx.cmp('ctor-slice-unsigned(F4 delimitation)', rep, got, ans)
-                if got == 'ok' or ans != 'ok' else None)
+                lambda ans, got=got, rep=rep: ctx.cmp('ctor-slice-unsigned(F4 delimitation)', rep, got, ans))
         else:
             if (got == 'ok') != documented_slice(lim, pos):
                 viol('ctor-domain', 'constructor accepts/rejects against the documented domain', rep)
